@@ -1,6 +1,7 @@
 import TantivyModel.Driver.Proto
 import TantivyModel.Model.Store.Store
 import TantivyModel.Model.Store.Version
+import TantivyModel.Model.Store.VInt32
 /-!
 Line protocol of the C09 model (doc store). Compression is `none` in every whole-file request
 (the harness feeds lz4/zstd stores block-wise after decompressing with the real codec).
@@ -142,6 +143,25 @@ def handle : List String → String
   | ["vintenc", n] =>
     match n.toNat? with
     | some n => hexOfBytes (vintEnc n)
+    | none => "bad-op"
+  | ["vint32enc", n] =>
+    match n.toNat? with
+    | some n => if n < 4294967296 then hexOfBytes (serializeVintU32 n) else "bad-op"
+    | none => "bad-op"
+  | ["vint32dec", h] =>
+    match bytesOfHex h with
+    | some bs =>
+      match readU32Vint bs with
+      | some (v, n) => s!"{v}:{n}"
+      | none => "err"
+    | none => "bad-op"
+  | ["cdbytes", len] =>
+    -- `write_bytes_into` for `len` zero bytes: the prefix, and what `binary_deserialize_bytes` gets back
+    match len.toNat? with
+    | some len =>
+      if len > 5000000 then "bad-op" else
+      let w := cdWriteBytes (List.replicate len 0)
+      s!"{hexOfBytes (w.take (w.length - len))}:{((cdReadBytes w).map List.length).getD 4294967296}"
     | none => "bad-op"
   | ["vintdec", h] =>
     match bytesOfHex h with
